@@ -250,7 +250,7 @@ def _run(case):
             raise Violation('signature-not-covering-request', 'a request carrying a signature was handed over although the request element is not covered by a valid signature of its own '
                             'under the issuer\'s metadata key (mutation %s %r)' % (mut, labels))
         iss = [c for c in root.childNodes if c.nodeType == c.ELEMENT_NODE and c.localName == 'Issuer']
-        if not iss or readers.st(''.join(t.data for t in iss[0].childNodes if t.nodeType == t.TEXT_NODE)) != sender:
+        if not iss or readers.st(''.join(t.data for t in iss[0].childNodes if t.nodeType in (t.TEXT_NODE, t.CDATA_SECTION_NODE))) != sender:
             raise Violation('signed-by-other-issuer', 'signed request accepted for issuer %r' % (iss and iss[0].toxml()))
     elif want:
         raise Violation('unsigned-accepted', 'receiver wants signed requests, an unsigned %s was handed over' % typ)
